@@ -152,6 +152,32 @@ impl QueryComputing {
         self.callee_info.callee_order.write().clear();
     }
 
+    /// Puts back a dependency list (in order, groups included) as registered
+    /// but *unobserved* callees, together with the firewalls known below.
+    pub fn restore_dependencies(
+        &self,
+        order: &[NodeDependency],
+        transitive_firewall_callees: impl IntoIterator<Item = QueryID>,
+    ) {
+        for dependency in order {
+            match dependency {
+                NodeDependency::Single(callee) => self.register_calee(callee),
+
+                NodeDependency::Unordered(callees) => {
+                    self.start_unordered_callee_group();
+                    for callee in callees {
+                        self.register_calee(callee);
+                    }
+                    self.end_unordered_callee_group();
+                }
+            }
+        }
+
+        for firewall in transitive_firewall_callees {
+            let _ = self.tfc.insert_sync(firewall);
+        }
+    }
+
     pub fn mark_scc(&self) {
         self.is_in_scc.store(true, std::sync::atomic::Ordering::SeqCst);
     }
@@ -686,12 +712,21 @@ impl<C: Config, Q: Query> Snapshot<C, Q> {
                         C::BuildHasher::default(),
                     );
 
+                    // The value of a cycle member is its cycle default, not
+                    // a function of what it read: what it observed must not
+                    // be used later to declare it unchanged. All its callees
+                    // are stored unobserved, so that a repair that finds
+                    // one of its edges dirty recomputes it.
+                    let is_in_scc = lock_guard.this_computing.is_in_scc();
+
                     lock_guard
                         .this_computing
                         .callee_info
                         .callee_queries
                         .iter_sync(|k, v| {
-                            if let Some(obs) = v {
+                            if let Some(obs) = v
+                                && !is_in_scc
+                            {
                                 hash_map.insert(*k, *obs);
                             }
 
